@@ -64,7 +64,7 @@ def collect_unwrap_seq(s: SeqOf(TSNode), code: Str) -> SeqOf(UnwrapCallT):
 
 
 # ------------------------------------------------------------------ analyzer
-@contract(F + "RustUnwrapAnalyzer._extract_field_identifier", props=["C17"], types=dict(field_expr=TSNode), returns=Str)
+@contract(F + "RustUnwrapAnalyzer._extract_field_identifier", props=["C17", "C11", "C13", "C19"], types=dict(field_expr=TSNode), returns=Str)
 class ExtractFieldIdentifier:
     def requires(field_expr):
         return field_expr is not None
@@ -76,7 +76,7 @@ class ExtractFieldIdentifier:
         return first_of_type(field_expr.children, "field_identifier") == first_of_type(rest, "field_identifier")
 
 
-@contract(F + "RustUnwrapAnalyzer._get_method_name", props=["C17"], types=dict(call_node=TSNode), returns=Str)
+@contract(F + "RustUnwrapAnalyzer._get_method_name", props=["C17", "C11", "C13", "C19"], types=dict(call_node=TSNode), returns=Str)
 class GetMethodName:
     def requires(call_node):
         return call_node is not None
@@ -88,7 +88,7 @@ class GetMethodName:
         return first_of_type(call_node.children, "field_expression") == first_of_type(rest, "field_expression")
 
 
-@contract(F + "RustUnwrapAnalyzer._find_unwrap_recursive", props=["C17", "C12"],
+@contract(F + "RustUnwrapAnalyzer._find_unwrap_recursive", props=["C17", "C12", "C11", "C13", "C19"],
           types=dict(node=TSNode, code=Str, calls=SeqOf(UnwrapCallT), method_name=Str), modifies=["calls"])
 class FindUnwrapRecursive:
     def requires(node, code, calls):
@@ -101,7 +101,7 @@ class FindUnwrapRecursive:
         return old.calls + collect_unwrap(node, code) == calls + collect_unwrap_seq(rest, code)
 
 
-@contract(F + "RustUnwrapAnalyzer.find_unwrap_calls", props=["C17"], types=dict(self=AnalyzerT, code=Str),
+@contract(F + "RustUnwrapAnalyzer.find_unwrap_calls", props=["C17", "C11", "C13", "C19"], types=dict(self=AnalyzerT, code=Str),
           returns=SeqOf(UnwrapCallT), named_types={"UnwrapCall": UnwrapCallT})
 class FindUnwrapCalls:
     def ensures_all_calls_of_the_file(self, code, result):
